@@ -154,6 +154,9 @@ def wrappers(t, force_alias=False):
             ('after s as A: no (u or t { %s })' % text, {'this': 't', 'A': 's'}),
             ('globally: s as A causes (t { %s } or u or w)' % text, {'this': 't', 'A': 's'}),
             ('after s as A until (u or t { %s }): some w' % text, {'this': 't', 'A': 's'}),
+            # the alias is bound by the middle / the last of three alternatives (disjunctions nest), each with its own alias
+            ('globally: (u as B or s as A or w as C) causes t { %s }' % text, {'this': 't', 'A': 's'}),
+            ('after (u as B or w or s as A): no t { %s }' % text, {'this': 't', 'A': 's'}),
         ]
     return [
         ('globally: no t { %s }' % text, {'this': 't'}),
@@ -351,7 +354,7 @@ def replay(w):
 def describe(tier):
     b = bounds(tier)
     return {
-        'rule': f"schemas and node bounds {b['schema_nodes']} (flat primitives; variable/fixed arrays of each primitive; nested messages three levels; array of messages with constants; fixed arrays of length 0/1/3 and arrays of arrays; four-level nesting) x every Bool term up to the schema's node bound generated type-directedly from the schema's valid paths (rooted at the message and at alias A), literals, + * ** = != < and implies not unary-minus abs len sum max bool int, sets, ranges, indexing, inclusion, both quantifiers (variables typed by their domain); each wrapped into 3-5 property positions; plus a schema whose field names begin with keywords (ERROR, INFO, PIN, notes, inner, ...); plus 7 type-generic predicates each parsed once and checked against number / boolean / string schemas in all 6 orders (histories of length 3); plus the signature matrix (every operator and every built-in function with every valid argument shape, used at its declared result type); parse, per-reference declared-type containment, and HplProperty.type_check_references against the real type tokens. Each predicate is placed in 6 event positions when it mentions no alias (behaviour, own alias, terminator under response / prevention, activator under requirement, member of a disjunctive behaviour) and in 9 when it does (alias from the activator or from a disjunctive trigger; used in behaviours, triggers, terminators and inside disjunctions). Plus sibling quantifiers (8 x 8 quantified sentences over number / boolean / string domains x 4 pairs of variable names, equal and different, also equal to field names x 3 connectives, and a nested quantifier whose name the sibling reuses) under the matrix schema. A state = one (schema, predicate); transitions = parser / schema-check calls.",
+        'rule': f"schemas and node bounds {b['schema_nodes']} (flat primitives; variable/fixed arrays of each primitive; nested messages three levels; array of messages with constants; fixed arrays of length 0/1/3 and arrays of arrays; four-level nesting) x every Bool term up to the schema's node bound generated type-directedly from the schema's valid paths (rooted at the message and at alias A), literals, + * ** = != < and implies not unary-minus abs len sum max bool int, sets, ranges, indexing, inclusion, both quantifiers (variables typed by their domain); each wrapped into 3-5 property positions; plus a schema whose field names begin with keywords (ERROR, INFO, PIN, notes, inner, ...); plus 7 type-generic predicates each parsed once and checked against number / boolean / string schemas in all 6 orders (histories of length 3); plus the signature matrix (every operator and every built-in function with every valid argument shape, used at its declared result type); parse, per-reference declared-type containment, and HplProperty.type_check_references against the real type tokens. Each predicate is placed in 6 event positions when it mentions no alias (behaviour, own alias, terminator under response / prevention, activator under requirement, member of a disjunctive behaviour) and in 11 when it does (alias from the activator or from a disjunctive trigger, also from the middle or the last of three alternatives that each bind an alias; used in behaviours, triggers, terminators and inside disjunctions). Plus sibling quantifiers (8 x 8 quantified sentences over number / boolean / string domains x 4 pairs of variable names, equal and different, also equal to field names x 3 connectives, and a nested quantifier whose name the sibling reuses) under the matrix schema. A state = one (schema, predicate); transitions = parser / schema-check calls.",
         'bounds': b,
         'exhaustive': True,
         'assumptions': ['type-directed generation by sort is the reference notion of well-typed'],
